@@ -713,6 +713,9 @@ class _Ctx:
     def _call_repo(self, e, targets, args, kws, starkw, receiver):
         roots, holds, kind = EMPTY, EMPTY, "?"
         for t in targets:
+            if any(d.split("(")[0].split(".")[-1] in ("lru_cache", "cache", "cached_property") for d in t.decorators):
+                # the returned object is kept by the memo table and handed out again: writing it changes what later calls see
+                roots |= frozenset({f"<memoised result of {t.qualname}>"})
             summ = self.an.summaries.get(id(t))
             bind = self._bind(t, args, kws, starkw, receiver)
             if summ is None:
